@@ -308,6 +308,28 @@ Theorem C11_wire_roundtrip_translated : forall (st : bstore) (sp : list Z) (dm :
     C11gen.c11_BitStorage_Raw (Some (C11_tie_io.inj st sp')) = C11gen.c11_BitStorage_Raw (Some (C11_tie_io.inj st sp)).
 Proof. exact C11_tie_io.wire_roundtrip_translated. Qed.
 
+(* non-vacuity: the translated constructor accepts 5-bit / 13 values, a translated history runs on it, wrong
+   raw length and width 65 panic with the stated values, the hypotheses of the two headline theorems hold for
+   ex_st, and the translated reader reuses a destination with enough capacity and allocates otherwise *)
+Example C11_translated_io_ex1 : exists b0, C11gen.c11_NewBitStorage 5 13 None = C11_syntax.GRet b0 /\
+  snd (C11_tie_io.t_run b0 [ASet 12 7; AGet 12; ASwap 0 32; AGet 13])%Z
+  = [C11_tie_io.TUnit; C11_tie_io.TRet 7; C11_tie_io.TPanic; C11_tie_io.TPanic]%Z.
+Proof. eexists; split; [vm_compute; reflexivity|vm_compute; reflexivity]. Qed.
+Example C11_translated_io_ex2 :
+  C11gen.c11_NewBitStorage 5 13 (Some [1; 2; 3])%Z = C11_syntax.GPanic (C11gen.GV_newBitStorageErr 3 2).
+Proof. vm_compute. reflexivity. Qed.
+Example C11_translated_io_ex3 : C11gen.c11_NewBitStorage 65 13 None = C11_syntax.GPanic C11gen.GV_runtime.
+Proof. vm_compute. reflexivity. Qed.
+Example C11_translated_io_ex4 : C11_tie_io.in_int 13 /\ wf ex_st /\ lenN (data ex_st) < 2 ^ 31 /\ all_bytes [7; 7].
+Proof.
+  split; [unfold C11_tie_io.in_int; split; [discriminate|reflexivity]|].
+  split; [exact C11_ex_wf|]. split; [reflexivity|]. constructor; [reflexivity|]. constructor; [reflexivity|constructor].
+Qed.
+Example C11_translated_io_ex5 :
+  C11_tie_io.spare_after (C11gen.mkG [1; 2; 3]%Z [4; 5]%Z 0 0 0 0) 2 = [3; 4; 5]%Z /\
+  C11_tie_io.spare_after (C11gen.mkG [1; 2; 3]%Z [4; 5]%Z 0 0 0 0) 6 = [].
+Proof. split; vm_compute; reflexivity. Qed.
+
 Print Assumptions C11_calc_size_panics_translated.
 Print Assumptions C11_new_translated.
 Print Assumptions C11_fix_translated.
